@@ -53,6 +53,10 @@ def strategy_(draw):
     if variant == "alpha":
         c["m_offset"] = draw(st.floats(1e-3, 10.0))
         c["int_pseudopressure"] = draw(st.integers(0, 2)) == 0  # whole numbers read from a CSV come as int64
+    if variant == "rescale":
+        # frac-face pressure from the generated pair, or exactly the first table row with the pseudopressure column
+        # referenced to that row (m(p_f) == 0 exactly, as for a table integrated from its own first pressure)
+        c["pf_mode"] = draw(st.sampled_from(["pair", "pair", "first-row-zero", "node"]))
     if variant == "reject-missing":
         c["drop"] = draw(st.sampled_from(["pseudopressure", "compressibility", "pressure", "viscosity", "z-factor"]))
         c["wrapper"] = draw(st.sampled_from(["standard", "simple"]))
@@ -153,6 +157,17 @@ def check_case(case) -> Result:
         return res
 
     if variant == "rescale":
+        mode = case.get("pf_mode", "pair")
+        res.labels["pf_mode"] = mode
+        if mode == "first-row-zero":
+            tab = dict(tab)
+            tab["pseudopressure"] = tab["pseudopressure"] - tab["pseudopressure"][0]
+            p_f = float(p[0])
+        elif mode == "node":
+            k = int(np.searchsorted(p, p_f))
+            k = min(max(k, 0), len(p) - 1)
+            if p[k] < p_i:
+                p_f = float(p[k])
         t = tables.as_container(tab, case["container"])
         snap = _snapshot(t)
         out = lib("rescale_pseudopressure", rescale_pseudopressure, t, p_f, p_i)
